@@ -72,9 +72,8 @@ def framing_ob(pid, endian, mode, N, nfiles=1):
         if r["rc"] != 0 or not os.path.exists(gb2): raise RuntimeError("goto-instrument failed:\n" + r["out"])
         fn = "decode_big_endian_program" if endian == "BE" else "decode_little_endian_program"
         per = 4 if endian == "BE" else 3
-        uw = {fn + ".1": N // per + 2, "decode_line_stub.0": 257, "ref_frame.0": N // 4 + 3,
-              "harness.4": N // 4 + 2, "vf_streq.0": 8}
-        cmd = ["cbmc", gb2, "--function", "harness", "--unwind", str(N + 2), "--unwindset",
+        uw = {fn + ".1": N // per + 2, "decode_line_stub.0": 257, "ref_frame.0": nfiles * (N // 3 + 1) + 2, "vf_streq.0": 8}
+        cmd = ["cbmc", gb2, "--function", "harness", "--unwind", str(max(N + 2, nfiles * (N // 3 + 1) + 2)), "--unwindset",
                ",".join("%s:%d" % kv for kv in uw.items()), "--unwinding-assertions", "--drop-unused-functions",
                "--no-malloc-may-fail", "--verbosity", "8", "--sat-solver", "cadical"] + CBMC_CHECKS
         native = dict(cc="gcc", files=[os.path.join(HC, "h_framing.c"), os.path.join(HC, "native_rt.c")],
